@@ -1,21 +1,22 @@
 #!/bin/bash
 # Build the harness (hooks on) against /repo's current working tree. Usage: build.sh [hv|ls|all]
 set -e
+V="$(cd "$(dirname "$0")" && pwd)"
 export RUSTUP_TOOLCHAIN=stable-x86_64-unknown-linux-gnu CARGO_NET_OFFLINE=true
 export RUSTFLAGS="--cfg harper_verif"
 what=${1:-all}
-cd /verif/hv
-if [ ! -f Cargo.lock ] || ! cmp -s /repo/Cargo.lock /verif/target/.repo_lock_copy 2>/dev/null; then
-  mkdir -p /verif/target
+cd "$V/hv"
+if [ ! -f Cargo.lock ] || ! cmp -s /repo/Cargo.lock $V/target/.repo_lock_copy 2>/dev/null; then
+  mkdir -p $V/target
   cp /repo/Cargo.lock Cargo.lock
-  cp /repo/Cargo.lock /verif/target/.repo_lock_copy
+  cp /repo/Cargo.lock $V/target/.repo_lock_copy
 fi
 if [ "$what" = hv ] || [ "$what" = all ]; then
-  cargo build --release --offline --target-dir /verif/target/hv 2>&1 | grep -E "^(error|warning: unused)|^\s+-->|Finished|could not compile" | grep -v "/repo/" | tail -30
-  test -x /verif/target/hv/release/hv
+  cargo build --release --offline --target-dir $V/target/hv 2>&1 | grep -E "^(error|warning: unused)|^\s+-->|Finished|could not compile" | grep -v "/repo/" | tail -30
+  test -x $V/target/hv/release/hv
 fi
 if [ "$what" = ls ] || [ "$what" = all ]; then
   CARGO_PROFILE_RELEASE_LTO=false CARGO_PROFILE_RELEASE_CODEGEN_UNITS=16 CARGO_PROFILE_RELEASE_STRIP=false \
-  cargo build --release --offline --manifest-path /repo/Cargo.toml -p harper-ls -p harper-cli --target-dir /verif/target/ls 2>&1 | grep -E "^error|Finished|could not compile" | tail -10
-  test -x /verif/target/ls/release/harper-ls
+  cargo build --release --offline --manifest-path /repo/Cargo.toml -p harper-ls -p harper-cli --target-dir $V/target/ls 2>&1 | grep -E "^error|Finished|could not compile" | tail -10
+  test -x $V/target/ls/release/harper-ls
 fi
